@@ -202,10 +202,114 @@ def in_outcomes(facts, ib, operand, hv, nv):
                     return hv
                 if i == 0 and nv is not None:
                     return nv
+            x = strip_refs(pe)
+            if x[0] == "call" and x[1] and x[1].get("local") and adt in ("std::option::Option", "std::result::Result"):
+                # a private helper's answer, its Option/Result combinators in case normal form under the assumed kinds
+                res = self.call_results(x, x[2])
+                if res:
+                    vs = set()
+                    for r0 in res:
+                        for r in expand(r0):
+                            r = strip_refs(r)
+                            vs.add(r[1].get("variant") if r[0] == "agg" else None)
+                    if len(vs) == 1 and None not in vs:
+                        return vs.pop()
+                    return None
             return XS.Reader.known(self, pe, adt)
     R = R_(facts, ib, None)
     mem = []
     looped = []
+
+    KIND_ACCESSOR = {"as_str": "String", "as_array": "Array", "as_object": "Object", "as_bool": "Bool", "as_null": "Null", "as_number": "Number",
+                     "is_string": "String", "is_array": "Array", "is_object": "Object", "is_boolean": "Bool", "is_null": "Null", "is_number": "Number"}
+
+    def expand(r):
+        """The values an expression can take, Option/Result combinators in case normal form (rules/optnorm.py); a case
+        that asks serde_json's kind accessor of an operand for an answer the assumed kind excludes is dropped."""
+        from . import optnorm
+        subs = optnorm.cases_expr(facts, r)
+        if not subs:
+            return [r]
+        outs = []
+        for conds, val in subs:
+            feasible = True
+            for k_, v_ in conds:
+                src = optnorm.SRC_EXPRS.get(k_)
+                src = strip_refs(src) if src is not None else None
+                if k_[0] == "variant" and src is not None and src[0] == "call" and src[1] and src[1]["path"].startswith("serde_json::Value::") and src[2]:
+                    acc = KIND_ACCESSOR.get(src[1]["path"].rsplit("::", 1)[1])
+                    i = operand(src[2][0])
+                    kind = hv if i == 1 else (nv if i == 0 else None)
+                    if acc and kind is not None and v_ in ("Some", "None") and (v_ == "Some") != (kind == acc):
+                        feasible = False
+            if feasible:
+                outs.append(val)
+        return outs
+
+    def membership_walk(call):
+        """A private helper that *walks* (loops over) the haystack's elements: on every path a candidate is handed to an
+        equality together with the needle; a candidate that is the same ends the walk with true, one that is not lets
+        the walk go on, and the exhausted walk answers false.  → outcome names, or None when not such a walk."""
+        from . import pathsum
+        fb = facts.body(call[1].get("key"))
+        if fb is None:
+            return None
+        w = pathsum.summarize(fb, known=R.known, env=dict((1 + i, a) for i, a in enumerate(call[2])), max_paths=800)
+        if w.overflow or not w.paths:
+            return None
+        outs, found = [], []
+        for p in w.paths:
+            hits = []
+            for ev in p.events:
+                c = ev[1]
+                if not c or len(ev[2]) != 2:
+                    continue
+                spelling = bool(SPELLING_EQ.search(c["path"]) or any(SPELLING_EQ.search(fw.get("path", "")) for fw in (c.get("fwd") or [])))
+                if not (c.get("local") or spelling):
+                    continue
+                ids = [R.ident(a) for a in ev[2]]
+                cand = [a for a in ids if isinstance(a, tuple) and a[0] == "elem"]
+                if len(cand) != 1 or not any(operand(a) == 0 for a in ids):
+                    continue
+                nx = fb.blocks[cand[0][1]]["term"]
+                S = R.norm(R.stream(pathsum_arg(w, p, cand[0][1], ev[2])))
+                hits.append((ev, c, spelling, S))
+            if not hits:
+                if p.truncated:
+                    return None
+                res = strip_refs(p.result)
+                if not (res[0] == "const" and const_value(res[1]) is False):
+                    return None            # the walk that found nothing must answer false
+                continue
+            if len(hits) != 1:
+                return None
+            ev, c, spelling, S = hits[0]
+            verdict = p.atoms.get(("site", ev[3])) if c.get("local") else p.atoms.get(("pure", pathsum.canon(strip_refs(("call", c, ev[2], ev[3])))))
+            res = strip_refs(p.result) if (not p.truncated and p.result is not None) else None
+            ok_path = (verdict is True and res is not None and res[0] == "const" and const_value(res[1]) is True) or (verdict is False and p.truncated)
+            if not ok_path:
+                return None
+            if S[0] == "adapted" and S[2][0] == "members" and operand(S[2][1]) == 1:
+                outs.append("MEMBERSHIP-AMONG-%s(elements)" % S[1])
+            elif not (S[0] == "members" and operand(S[1]) == 1):
+                outs.append("ANY(%s)" % R.show(S)[:40])
+            elif spelling:
+                outs.append("SPELLING-MEMBERSHIP")
+            else:
+                found.append(c["key"])
+                outs.append("MEMBERSHIP")
+        if not outs:
+            return None
+        mem.extend(found)
+        return outs
+
+    def pathsum_arg(w, p, site, args):
+        """The iterator expression the candidate was pulled from: the argument of the `next()` at `site`, in the
+        caller's terms (taken from the candidate expression itself)."""
+        hit = []
+        for a in args:
+            expr_mentions(a, lambda y: y[0] == "call" and y[1] and y[1]["path"].endswith("::next") and len(y) > 3 and y[3] == site and y[2] and not hit.append(y[2][0]))
+        return hit[0] if hit else ("unknown",)
 
     def payload_of(e, variant):
         """`(X as Ok).0` / `(branch(X) as Continue).0` where X is a private helper's answer: the helper's Ok payloads."""
@@ -220,14 +324,15 @@ def in_outcomes(facts, ib, operand, hv, nv):
             if res is None:
                 return None
             outs = []
-            for r in res:
-                r = strip_refs(r)
-                if r[0] == "agg" and r[1].get("variant") in ("Ok", "Some") and len(r[2]) == 1:
-                    outs.append(r[2][0])
-                elif r[0] == "agg" and r[1].get("variant") in ("Err", "None"):
-                    continue
-                else:
-                    return None
+            for r0 in res:
+                for r in expand(r0):
+                    r = strip_refs(r)
+                    if r[0] == "agg" and r[1].get("variant") in ("Ok", "Some") and len(r[2]) == 1:
+                        outs.append(r[2][0])
+                    elif r[0] == "agg" and r[1].get("variant") in ("Err", "None"):
+                        continue
+                    else:
+                        return None
             return outs
         return None
 
@@ -247,12 +352,19 @@ def in_outcomes(facts, ib, operand, hv, nv):
             if x[1].get("local"):
                 res = R.call_results(x, x[2])
                 if res is None:
+                    walk = membership_walk(x)
+                    if walk is not None:
+                        return walk
                     looped.append(x[1].get("key"))
                     return ["?(helper %s)" % x[1].get("key")]
                 return [o for a in res for o in boolean(a, depth + 1)]
             if path == "core::str::<impl str>::contains" and len(x[2]) == 2:
-                hs = expr_mentions(x[2][0], lambda y: y[0] == "downcast" and y[2] == "String" and operand(y[1]) == 1)
-                ns = expr_mentions(x[2][1], lambda y: y[0] == "downcast" and y[2] == "String" and operand(y[1]) == 0)
+                # the text of a String operand: its payload, or what `as_str` hands out (Some exactly for a String)
+                def text_of(e_, i_):
+                    return expr_mentions(e_, lambda y: (y[0] == "downcast" and y[2] == "String" and operand(y[1]) == i_)
+                                         or (y[0] == "call" and y[1] and y[1]["path"] == "serde_json::Value::as_str" and y[2] and operand(y[2][0]) == i_))
+                hs = text_of(x[2][0], 1)
+                ns = text_of(x[2][1], 0)
                 return ["SUBSTRING" if hs and ns else "SUBSTRING(wrong operands)"]
             if path == "core::slice::<impl [T]>::contains":
                 return ["SPELLING-MEMBERSHIP"]
@@ -288,6 +400,10 @@ def in_outcomes(facts, ib, operand, hv, nv):
             return ["?(deep)"]
         if x[0] == "phi":
             return [o for a in x[2] for o in value(a, depth + 1)]
+        if x[0] == "call" and x[1] and not x[1].get("local") and re.match(r"^std::(option::Option|result::Result)::<", x[1].get("path", "")):
+            ex = expand(x)
+            if ex and not (len(ex) == 1 and strip_refs(ex[0]) == x):
+                return [o for a in ex for o in value(a, depth + 1)]
         if x[0] == "agg" and x[1].get("variant") == "Err":
             return ["ERR"]
         if x[0] == "call" and x[1] and "from_residual" in x[1].get("path", ""):
@@ -390,6 +506,109 @@ def missing_key(ctx, facts, unit, mf, cfg):
         ctx.ok("K3.missing-key-site", "the key-wise comparison handles a missing key explicitly (%s)" % cfg)
 
 
+def container_walk(facts, b, mf, known=None):
+    """K3.elementwise on a body that walks the members in *loops* (path summaries): what the property needs is stated
+    on the events of every path, not on the spelling of the walk —
+      * a key of one object looked up in the other (`Map::get(Y, key of X)`) and a pair of members handed to the
+        membership equality (`same(next of X, next of Y)`) happen only on paths on which `len(X) == len(Y)` holds for
+        those very X and Y (a walk over one side alone, or a pairwise walk that stops at the shorter side, decides a
+        sub-collection / prefix to be the same element);
+      * a pair that is not the same ends the walk with false; a pair that is the same lets the walk go on (it does
+        not decide the answer).
+    → {"Object": (bad, good, unread), "Array": (bad, good, unread)}, or None when the body is not summarised."""
+    from . import pathsum
+    w = pathsum.summarize(b, known=known, max_paths=3000)
+    if w.overflow or not w.paths:
+        return None
+
+    def measured(txt):
+        """What a `len(..)` rendering measures, reference plumbing peeled."""
+        if "::len(" not in txt:
+            return None
+        x = txt.split("::len(", 1)[1]
+        x = x[:-1] if x.endswith(")") else x
+        while True:
+            m = re.match(r"^\((?:ref|deref) (.*)\)$", x)
+            if not m:
+                return x
+            x = m.group(1)
+
+    def lens_equal(p, c1, c2):
+        """True / False / None: the path knows len(X) == len(Y) for X inside c1 and Y inside c2 (or the other way round)."""
+        seen = None
+        for k, val in p.atoms.items():
+            if k[0] == "cmp" and isinstance(val, bool):
+                la, lb = measured(str(k[2])), measured(str(k[3]))
+                if la is None or lb is None or la == lb:
+                    continue
+                if (la in c1 and lb in c2) or (la in c2 and lb in c1):
+                    if k[1] != "Eq":
+                        return "cmp:" + k[1]
+                    seen = val if seen is None else (seen and val)
+        return seen
+
+    out = {"Object": ([], 0, []), "Array": ([], 0, [])}
+
+    def note(kind, what, msg=None):
+        bad, good, unread = out[kind]
+        if what == "bad":
+            bad.append(msg)
+        elif what == "unread":
+            unread.append(msg)
+        else:
+            out[kind] = (bad, good + 1, unread)
+
+    for p in w.paths:
+        gets = [ev for ev in p.events if ev[1] and ev[1]["path"].startswith("serde_json::Map::<") and ev[1]["path"].endswith("::get") and len(ev[2]) == 2]
+        recs = [ev for ev in p.events if ev[1] and ev[1].get("key") == mf.key and len(ev[2]) == 2]
+        for ev in gets:
+            cy, ck = pathsum.canon(strip_refs(ev[2][0])), pathsum.canon(strip_refs(ev[2][1]))
+            if "::next(" not in ck:
+                continue            # not a key handed out by a walk
+            le = lens_equal(p, ck, cy)
+            if le is True:
+                note("Object", "good")
+            elif isinstance(le, str):
+                note("Object", "bad", "the two numbers of entries are compared with %s (only equality decides)" % le.split(":")[1])
+            else:
+                note("Object", "bad", "the entries of one object are walked and the numbers of entries of these two objects are not known to be equal on this path: an object would be the same element as any object that has its keys among others")
+        for ev in recs:
+            c1, c2 = pathsum.canon(strip_refs(ev[2][0])), pathsum.canon(strip_refs(ev[2][1]))
+            if "::next(" not in c1 and "::next(" not in c2:
+                continue            # not a pair handed out by a walk (a re-dispatch)
+            kind = "Object" if ("::get(" in c1 or "::get(" in c2) else "Array"
+            if kind == "Array":
+                le = lens_equal(p, c1, c2)
+                if isinstance(le, str):
+                    note(kind, "bad", "the two lengths are compared with %s (only equality decides: a shorter array is not the same element as a longer one that starts with it)" % le.split(":")[1])
+                    continue
+                if le is not True:
+                    note(kind, "bad", "the members are walked pairwise and the lengths of these two arrays are not known to be equal on this path: the walk stops at the shorter side, so a prefix is the same element as the whole")
+                    continue
+            verdict = p.atoms.get(("site", ev[3]))
+            res = strip_refs(p.result) if (p.result is not None and not p.truncated) else None
+            const = const_value(res[1]) if (res is not None and res[0] == "const") else None
+            if verdict is False:
+                if p.truncated:
+                    note(kind, "bad", "the walk goes on after a pair of members that is not the same: two %ss are the same element only if *every* pair of members is" % kind.lower())
+                elif const is False:
+                    note(kind, "good")
+                elif const is True:
+                    note(kind, "bad", "a pair of members that is not the same makes the %ss the same element" % kind.lower())
+                else:
+                    note(kind, "unread", "after a pair that is not the same the result is %s" % (show_expr(res)[:50] if res is not None else "?"))
+            elif verdict is True:
+                if p.truncated:
+                    note(kind, "good")
+                elif isinstance(const, bool):
+                    note(kind, "bad", "one pair of members that is the same decides the answer (%s): two %ss are the same element only if *every* pair of members is" % (str(const).lower(), kind.lower()))
+                else:
+                    note(kind, "unread", "after a pair that is the same the result is %s" % (show_expr(res)[:50] if res is not None else "?"))
+            else:
+                note(kind, "unread", "what the walk does with the answer for a pair of members is not read")
+    return out
+
+
 def container_cases(ctx, facts, mf, cfg):
     """K3.elementwise — the container cases of the membership equality, read on its decision cases with both kinds fixed:
     two arrays (two objects) are the same element iff they have the *same number* of members and *every* pair of
@@ -406,8 +625,20 @@ def container_cases(ctx, facts, mf, cfg):
     for kind in ("Array", "Object"):
         key0 = "membership equality %s,%s (%s)" % (kind, kind, cfg)
         cases = optnorm.decision_cases(facts, mf, known=lambda e, adt, _k=kind: _k if (adt == VALUE_ and strip_refs(e) in (("arg", 1), ("arg", 2))) else None)
+        kn = lambda e, adt, _k=kind: _k if (adt == VALUE_ and strip_refs(e) in (("arg", 1), ("arg", 2))) else None
         if cases is None:
-            ctx.unread("K3.elementwise", key0, "the membership equality has loops or too many paths to summarise", where=mf.where(), fn=mf.key)
+            # the walk is spelled with loops in the membership equality itself
+            wk = container_walk(facts, mf, mf, known=kn)
+            if wk is None or not (wk[kind][0] or wk[kind][1] or wk[kind][2]):
+                ctx.unread("K3.elementwise", key0, "the membership equality has loops or too many paths to summarise, and no walk over the members of two %ss is read" % kind.lower(), where=mf.where(), fn=mf.key)
+                continue
+            bad, good, unread = wk[kind]
+            for b_ in sorted(set(bad)):
+                ctx.fail("K3.elementwise", key0 + "|" + b_[:40], b_, where=mf.where(), fn=mf.key)
+            if not bad and unread:
+                ctx.unread("K3.elementwise", key0, "the %s walk is not read: %s" % (kind, unread[:2]), where=mf.where(), fn=mf.key)
+            elif not bad:
+                ctx.ok("K3.elementwise", key0, nontrivial=True, sample={"kind": kind, "walks": good})
             continue
         bad, good, unread = [], 0, []
         for conds, v, p in cases:
@@ -434,6 +665,16 @@ def container_cases(ctx, facts, mf, cfg):
                 ca, cb = pathsum.canon(strip_refs(vv[2])), pathsum.canon(strip_refs(vv[3]))
                 if (is_len_of(ca, 1) and is_len_of(cb, 2)) or (is_len_of(ca, 2) and is_len_of(cb, 1)):
                     continue          # the length comparison itself returned as the result (empty walk): nothing to read
+            if vv[0] == "call" and vv[1] and vv[1].get("local") and vv[1].get("key") != mf.key and not neg and facts.body(vv[1]["key"]) is not None and len_state is None:
+                # the case is handed to a private helper (`arrays_eq(xs, ys)`): the helper's walk is the case's walk
+                hb = facts.body(vv[1]["key"])
+                wk = container_walk(facts, hb, mf)
+                if wk is not None and any(wk[k_][0] or wk[k_][1] or wk[k_][2] for k_ in wk):
+                    for k_ in wk:
+                        bad.extend(wk[k_][0])
+                        good += wk[k_][1]
+                        unread.extend(wk[k_][2])
+                    continue
             m_ = re.search(r"(Iterator::|Iterator>::)(all|any)$", vv[1]["path"]) if (vv[0] == "call" and vv[1]) else None
             if not m_ or len(vv[2]) != 2:
                 unread.append(show_expr(strip_refs(v))[:70])
@@ -496,8 +737,21 @@ def run(ctx):
         mu = Unit(roles, mb.key, extended=True)
         vecp = 2 if mb.kind == "closure" else 1
         ctx.check(me.table.role == "eager" and me.accepted() == (0, float("inf")), "K1.binding", "merge is an eager operator taking any number of operands (%s)" % cfg, "merge: %s table, arity %s" % (me.table.role, me.num), where=mb.where(), fn=mb.key)
-        rec = [s for s in mu.calls_to(mb.key)]
-        ctx.check(not rec, "K1.not-recursive", "merge does not call itself (%s)" % cfg, "merge is recursive", where=mb.where(), fn=mb.key, nontrivial=True)
+        # one level only: nothing of merge's own code (the function, its closures, the private helpers it reaches
+        # without going through the interpreter) is on a call cycle — wherever the per-operand code lives
+        cg, _ = facts.callgraph()
+        rec = []
+        for k in sorted(mu.keys):
+            seen_, st_ = set(), [x for x in cg.get(k, ()) if x in mu.keys]
+            while st_:
+                y = st_.pop()
+                if y in seen_:
+                    continue
+                seen_.add(y)
+                st_.extend(x for x in cg.get(y, ()) if x in mu.keys)
+            if k in seen_:
+                rec.append(k)
+        ctx.check(not rec, "K1.not-recursive", "merge does not call itself (%s)" % cfg, "merge's code is recursive (%s): more than one level can be flattened" % ", ".join(rec)[:160], where=mb.where(), fn=mb.key, nontrivial=True)
         for s in mu.calls(lambda c: MUTATORS.search(c["path"]) is not None):
             ctx.fail("K1.append-only", "merge|%s" % callee_path(s.term).rsplit("::", 1)[1], "merge edits its result with %s (order / multiplicity would change)" % callee_path(s.term), where=s.where(), fn=s.body.key)
         # the pass over the operands and the contribution of each kind of operand
@@ -657,7 +911,7 @@ def run(ctx):
                 ctx.check(good, "K3.pair", "membership equality %s,%s: %s (%s)" % (a, b, want, cfg), "%s vs %s is compared by %s; expected %s" % (a, b, o.kind, want), where=mf.where(), fn=mf.key, nontrivial=True,
                           sample={"pair": "%s,%s" % (a, b), "outcome": o.kind} if a == b else None)
             # Object×Object is key-wise (Map::get), Array×Array element-wise with equal lengths
-            mu2 = Unit(roles, mf.key)
+            mu2 = Unit(roles, mf.key, extended=True)       # the membership equality with the private helpers it reaches
             container_cases(ctx, facts, mf, cfg)
             missing_key(ctx, facts, mu2, mf, cfg)
             paths = [callee_path(s.term) for s in mu2.calls()]
